@@ -130,6 +130,22 @@ def boolVecs : Nat → List (List Bool)
   | 0 => [[]]
   | k + 1 => (boolVecs k).flatMap fun v => [false :: v, true :: v]
 
+/-- coin vectors of length `n` with at most `k` coins `true` -/
+def sparseVecs : Nat → Nat → List (List Bool)
+  | 0, _ => [[]]
+  | n + 1, k =>
+    (sparseVecs n k).map (false :: ·) ++ (if k = 0 then [] else (sparseVecs n (k - 1)).map (true :: ·))
+
+/-- The coin resolutions followed for one `importOne` that makes up to `n` `WriteBlockWithState` calls (the re-import of
+    `n - 1` stateless ancestors plus the block itself).  A coin is only looked at by a call that meets an exact
+    total-difficulty tie at equal height, so all `2^n` vectors are followed up to 6 calls and, beyond that, every vector with
+    at most 3 heads (no generated tree has more than 3 exact ties along one ancestry) — NOT a truncation to the first calls:
+    the block itself uses the LAST coin. -/
+def coinVecs (n : Nat) : List (List Bool) := if n ≤ 6 then boolVecs n else sparseVecs n 3
+
+/-- the same for a header batch of `n` headers (one coin per header written): all vectors up to 8, at most 3 heads beyond -/
+def hdrCoinVecs (n : Nat) : List (List Bool) := if n ≤ 8 then boolVecs n else sparseVecs n 3
+
 def dedupBy {α : Type} (key : α → String) (xs : List α) : List α :=
   (xs.foldl (fun (acc : List String × List α) x =>
     let k := key x
@@ -153,7 +169,7 @@ def importChainND (t : Tree) (s : St) (chain : List Blk) : List (St × String) :
     match bs with
     | [] => fin ++ cands.map (fun c => (c, "ok"))
     | b :: rest =>
-      let outs := cands.flatMap fun c => (boolVecs (min (coinSlots c b) 6)).map fun v => importOne c b v
+      let outs := cands.flatMap fun c => (coinVecs (coinSlots c b)).map fun v => importOne c b v
       let errs := outs.filterMap fun o => o.err.map fun e =>
         (o.st, if e == .modelPanic then "panic" else errStr e ++ "@" ++ toString i)
       let oks := dedupBy (render t "") ((outs.filter (fun o => o.err.isNone)).map (·.st))
@@ -161,7 +177,7 @@ def importChainND (t : Tree) (s : St) (chain : List Blk) : List (St × String) :
   go [s] (contigPrefix chain) 0 []
 
 def hImportChainND (t : Tree) (s : HSt) (chain : List Blk) : List (HSt × String) :=
-  let outs := (boolVecs (min chain.length 8)).map fun v => hImportChain s chain v
+  let outs := (hdrCoinVecs chain.length).map fun v => hImportChain s chain v
   dedupBy (fun x => hrender t x.2 x.1) (outs.map fun (o, i) =>
     match o.err with
     | some .modelPanic => (o.st, "panic")
@@ -184,7 +200,7 @@ def mImportChainND (t : Tree) (s : MSt) (chain : List Blk) : List (MSt × String
   go [s] (contigPrefix chain) 0 []
 
 def mImportHeadersND (t : Tree) (s : MSt) (chain : List Blk) : List (MSt × String) :=
-  let outs := (boolVecs (min chain.length 8)).map fun v => mImportHeaders s chain v
+  let outs := (hdrCoinVecs chain.length).map fun v => mImportHeaders s chain v
   dedupBy (fun x => mrender t x.2 x.1) (outs.map fun (o, i) =>
     match o.err with
     | some .modelPanic => (o.st, "panic")
